@@ -119,13 +119,11 @@ occupies its slot until the new value is stored, and it becomes a root of its ow
 value took it in. -/
 def dictStore (cfg : Cfg) (f : Forest) (m : Meta) (its : Items) (key : Key) (ve : VE) : Forest :=
   let d := dictDetached its key
-  let r := evalVE cfg f (d.bind Tree.id?) (some m.id) (isObjKind m.kind) m.part (m.path ++ [key]) ve
+  let r := evalVE cfg { f with consumed := false } (d.bind Tree.id?) (some m.id) (isObjKind m.kind) m.part
+    (m.path ++ [key]) ve
   let nv := adoptPartial (isObjKind m.kind) m.part r.2
-  let f3 := r.1.mapAt m.id (storeKey key key nv)
-  let consumed := match d.bind Tree.id? with
-    | some oid => r.2.ids.contains oid
-    | none => false
-  if consumed then f3 else addRoots f3 d.toList
+  let f3 := { r.1 with consumed := false }.mapAt m.id (storeKey key key nv)
+  if r.1.consumed then f3 else addRoots f3 d.toList
 
 /-- `Dict._set_item_without_permission_check` (dict.py:533-583), also the attribute container of
 an object (object.py:896-900). -/
@@ -682,7 +680,7 @@ def normalizeRoots (before : Forest) (after : Forest) (keepFresh : Bool) : Fores
   let held (r : Tree) : Bool := r.ids.any (fun i => decide (i < before.nextId))
   let surviving := oldRootIds.filterMap (fun i => after.roots.find? (fun r => r.id? == some i))
   let others := after.roots.filter (fun r => !isOld r && (keepFresh || !fresh r || held r))
-  { after with roots := surviving ++ sortByIdx key others, pool := [] }
+  { after with roots := surviving ++ sortByIdx key others, pool := [], consumed := false }
 
 def stepN (cfg : Cfg) (f : Forest) (notifyOn : Bool) (op : Op) : Res :=
   let r := step cfg f notifyOn op
